@@ -249,7 +249,7 @@ func genProject(r *rand.Rand, id string, wantBodies bool) Case {
 	g := &gctx{r: r, external: extTypes}
 	nf := 1 + r.Intn(6)
 	c := Case{Case: id, Layout: r.Intn(10000), Runs: [][]int{}}
-	names := []string{"Blog", "BlogService", "Repo", "A", "UserAccountManagerImpl", "Post", "Util", "Dto"}
+	names := []string{"Blog", "BlogService", "Repo", "A", "UserAccountManagerImpl", "Post", "Util", "Dto", "Contest", "Latests", "TestKit", "Attestation"}
 	r.Shuffle(len(names), func(i, j int) { names[i], names[j] = names[j], names[i] })
 	kinds := make([]string, nf)
 	for i := 0; i < nf; i++ {
@@ -378,6 +378,9 @@ func genProject(r *rand.Rand, id string, wantBodies bool) Case {
 					m.Generic = ""
 					if m.Type == "T" && u.TParams == "" {
 						m.Type = "Object"
+					}
+					if r.Intn(3) == 0 {
+						m.Anns = g.anns(2)
 					}
 				}
 				if k := sig(m); usedNames[k] > 0 {
